@@ -73,7 +73,7 @@ PROPS = {
     "C07": dict(
         harnesses=[
             dict(run=B + "VerifC07Compact", quick=dict(ops=2, keys=1, val9=0, delfaults=1), thorough=dict(ops=3, keys=1, val9=0, delfaults=2),
-                 covers=["delete-error", "delete-unknown-applied", "compactor-dies", "get-present", "get-absent", "done"]),
+                 covers=["delete-error", "delete-unknown-applied", "delete-unknown-lost", "compactor-dies", "get-present", "get-absent", "done"]),
             dict(run=B + "VerifC07Compact", name="C07_partitioned", quick=dict(ops=2, keys=1, val9=0, delfaults=0, borders=1, after=0), thorough=dict(ops=2, keys=2, val9=0, delfaults=1, borders=2, after=0),
                  covers=["partitioned", "border-inside-versions", "border-on-index-record", "get-present", "get-absent", "done"]),
             dict(run=B + "VerifC07Borders", quick=dict(maxskip=2, keylen=4), thorough=dict(maxskip=2, keylen=6), covers=["with-skipped", "done"]),
@@ -82,7 +82,7 @@ PROPS = {
             dict(run=B + "VerifInductiveStep", name="C07_inductive", quick=dict(val9=0, maxversions=2, stepkind=2), thorough=dict(val9=0, maxversions=3, stepkind=2),
                  covers=["compacted", "get-present", "get-absent", "done"]),
         ],
-        bounds=dict(quick="histories of 2 writes on 1 key (multi-version, tombstones, re-created), compaction at every revision R in (base, current], one fault (error / unknown-applied / compactor dies) at any compaction delete, reads at every R' >= R and latest, one further write; compaction racing one symbolic write (create / update / delete) on a key with a tombstone, two live versions or a re-created key, interleaved at the store operations, revision dealing and request boundaries with <= 1 scheduling delay; compaction ranges for prefix /r with 0..2 skipped prefixes of symbolic bytes (conditions of KubeBrainOption.Validate assumed) against a symbolic raw key of 2..5 bytes; a whole write (any kind, symbolic expectation) placed before any of the first 8 store operations of the compaction or after it (3 key histories); one compaction at any revision from an arbitrary invariant-satisfying state of one key (0..2 versions), reads from the floor up unchanged, invariant re-established; compaction (no fault) on an engine that splits the key space at one border — an index record or any internal key inside a key's versions — after histories of 2 writes",
+        bounds=dict(quick="histories of 2 writes on 1 key (multi-version, tombstones, re-created), compaction at every revision R in (base, current], one fault (error / outcome unknown and applied / outcome unknown and not applied / compactor dies) at any compaction delete, reads at every R' >= R and latest, one further write; compaction racing one symbolic write (create / update / delete) on a key with a tombstone, two live versions or a re-created key, interleaved at the store operations, revision dealing and request boundaries with <= 1 scheduling delay; compaction ranges for prefix /r with 0..2 skipped prefixes of symbolic bytes (conditions of KubeBrainOption.Validate assumed) against a symbolic raw key of 2..5 bytes; a whole write (any kind, symbolic expectation) placed before any of the first 8 store operations of the compaction or after it (3 key histories); one compaction at any revision from an arbitrary invariant-satisfying state of one key (0..2 versions), reads from the floor up unchanged, invariant re-established; compaction (no fault) on an engine that splits the key space at one border — an index record or any internal key inside a key's versions — after histories of 2 writes",
                     thorough="histories of 3 writes, up to 2 faults; two borders in any order with one fault over 2 keys; the race with <= 2 scheduling deviations; 12 positions for the whole write; skipped prefixes of up to 6 bytes; the inductive compaction step over 0..3 versions"),
         outside="time-based expiry (C17); more than one concurrent writer during the scan; more than 2 skipped prefixes or skipped prefixes longer than <prefix>+3 bytes",
     ),
@@ -103,10 +103,11 @@ PROPS = {
         harnesses=[
             dict(run=B + "VerifC13Partitions", quick=dict(ops=2, keys=1, val9=0, borders=1), thorough=dict(ops=2, keys=2, val9=0, borders=2),
                  covers=["partitioned", "border-on-index-record", "border-inside-versions", "done"]),
+            dict(run=B + "VerifC13ManyPartitions", quick=dict(pieces=40, val9=0, _loop=400), thorough=dict(pieces=70, val9=0, _loop=400), covers=["partitioned", "several-advertised-pieces", "done"]),
             dict(run=B + "VerifC13Retry", quick=dict(val9=0, borders=1, iterfaults=8), thorough=dict(val9=0, borders=2, iterfaults=12),
                  covers=["partitioned", "iterator-fault", "done"]),
         ],
-        bounds=dict(quick="2-write histories on 1 key, 2 partitions with the border at Encode(name, rev) for any 64-bit rev (index record, inside versions, beyond), pieces reported in any order; unlimited list, count, streamed range as a whole and streamed per advertised partition (GetPartitions, then one stream per piece) at every readable revision over the whole prefix or an interval that starts or ends exactly on a stored key; retry: 3 keys (one updated), 1 border, one transient iterator fault at any of the first 8 steps of the scan of any piece of an unlimited list / count / streamed range at the latest revision",
+        bounds=dict(quick="2-write histories on 1 key, 2 partitions with the border at Encode(name, rev) for any 64-bit rev (index record, inside versions, beyond), pieces reported in any order; unlimited list, count, streamed range as a whole and streamed per advertised partition (GetPartitions, then one stream per piece) at every readable revision over the whole prefix or an interval that starts or ends exactly on a stored key; many pieces: 3 keys (two updated) on an engine reporting 40 pieces (borders on and between every version of every key, reported in reverse order), each kind of read at any readable revision; retry: 3 keys (one updated), 1 border, one transient iterator fault at any of the first 8 steps of the scan of any piece of an unlimited list / count / streamed range at the latest revision",
                     thorough="2 keys, up to 3 partitions; the retry harness with 2 borders and a fault at any of the first 12 iterator steps"),
         outside="borders that are not well-formed internal keys; a retry after a batch of the failed attempt was already sent (batches hold 300 keys); more than one engine fault per read",
     ),
@@ -255,13 +256,14 @@ PROPS = {
             dict(run="pkg/zzc11.VerifC11BadgerMetrics", quick=dict(entries=1, ops=1), thorough=dict(entries=2, ops=1), covers=["batch-applied", "batch-refused", "done"]),
             dict(run="pkg/zzc11.VerifC11TiKV", quick=dict(entries=2, ops=1), thorough=dict(entries=2, ops=2), covers=["batch-applied", "batch-refused", "get-hit", "iter-several", "iter-descending", "changed-under-iterator", "done"], validate=2),
             dict(run="pkg/zzc11.VerifC11TiKVPartitions", covers=["several-regions", "all-three-regions", "done"]),
+            dict(run="pkg/zzc19.VerifC19Memkv", name="C11_memkv_concurrent", quick=dict(preempt=2), thorough=dict(preempt=3), covers=["done"], race=True, race_replay=True, stress=40),
             dict(run="pkg/zzc11.VerifC11ScanTiKV", quick=dict(scan=260, _loop=2000), thorough=dict(scan=520, _loop=4000), covers=["changed-under-long-scan", "done"]),
             dict(run="pkg/zzc11.VerifC11ScanMemkv", quick=dict(scan=260, _loop=2000), thorough=dict(scan=520, _loop=4000), covers=["changed-under-long-scan", "done"]),
             dict(run="pkg/zzc11.VerifC11ScanBadger", quick=dict(scan=260, _loop=2000), thorough=dict(scan=520, _loop=4000), covers=["changed-under-long-scan", "done"]),
         ],
         bounds=dict(quick="each of memkv, Badger, TiKV (and the metrics wrapper over memkv and over Badger): 2 initial entries with symbolic keys of 1..2 bytes over {a,b,c} and symbolic values; then one batch of 1 operation (memkv: 1..2) of put-if-absent / CAS / put / delete with symbolic key, value, expected value and TTL flag, or one Get, one Del, one compare-and-delete (entry optionally really changed under the iterator), or one iteration with symbolic bounds in either direction and limit 0..2 — differential against the contract store; the TiKV adapter's GetPartitions over 3 regions split at symbolic keys for any requested interval",
                     thorough="batches of up to 2 operations on every engine (several conditions, a condition on a key written or deleted earlier in the batch); 3 initial entries with single operations on memkv"),
-        outside="the engines themselves (Badger's SSI, TiKV's percolator and regions: their client libraries are replaced by models, every counterexample is replayed on the real library / the mock cluster); TTL expiry inside engines; concurrent transactions; keys longer than 2 bytes; a rewrite with the identical value under an iterator (the contract allows delete-if-value-equal or delete-if-version-equal)",
+        outside="the engines themselves (Badger's SSI, TiKV's percolator and regions: their client libraries are replaced by models, every counterexample is replayed on the real library / the mock cluster); TTL expiry inside engines; concurrent transactions other than reader / writer / iterator on the in-memory adapter (<= 2 scheduling delays: a key never written is not found, an iterator yields only written keys); keys longer than 2 bytes; a rewrite with the identical value under an iterator (the contract allows delete-if-value-equal or delete-if-version-equal)",
         assumptions=["github.com/huandu/skiplist, github.com/dgraph-io/badger and github.com/tikv/client-go/v2 are replaced by engine models (sorted sequences with snapshots and versions); counterexamples and sampled paths are replayed on the real libraries (Badger in a temp dir, client-go's mock TiKV cluster)"],
     ),
     "C19": dict(
